@@ -178,12 +178,13 @@ def decay_case(part, item):
 
 def main(run: core.Run):
     thorough = run.tier == 'thorough'
-    depth = 6 if thorough else 5
+    depth = 8 if thorough else 6
     subsets = [frozenset(c) for r in range(len(PARAMS) + 1)
                for c in itertools.combinations(PARAMS, r)]
     core.pmap(run, subset_case,
               [(s, depth, run.seed, 'float') for s in subsets] +
-              [(s, min(depth, 4), run.seed, 'int') for s in subsets],
+              [(s, min(depth, 6 if thorough else 4), run.seed, 'int')
+               for s in subsets],
               chunk=1)
     core.pmap(run, ctor_case, [(cp, s) for cp in [None] + PARAMS
                                for s in subsets], chunk=64)
